@@ -87,7 +87,7 @@ Definition snapshot_k (off : Z) (g : zstate) : list obs :=
     (1017, name_map_rows (predecessors g), []);
     (1018, idx_map_rows (predecessors_map g), []);
     (19 + off, adj_vec_rows (predecessors_vec g), []) ].
-Definition snapshot := snapshot_k 0.
+Definition snapshot := snapshot_k 1000.
 
 Definition spec_obs (g : zstate) : obs :=
   let s := sp g in
